@@ -90,6 +90,9 @@ fn run_fn_cond(f: &Value) -> Option<Value> {
     lines.push("via_not = not probe_fn a3".to_string());
     lines.push("if false\nvia_elseif = set skipped\nelseif probe_fn a4\nvia_elseif = set yes\nelse\nvia_elseif = set no\nend".to_string());
     lines.push("via_while = set no\nwhile probe_fn a5\nvia_while = set yes\ngoto :wend\nend\n:wend".to_string());
+    // wrappers nested in wrappers: `not <function>` as the condition of if / while
+    lines.push("if not probe_fn a6\nvia_if_not = set yes\nelse\nvia_if_not = set no\nend".to_string());
+    lines.push("via_while_not = set no\nwhile not probe_fn a7\nvia_while_not = set yes\ngoto :wend2\nend\n:wend2".to_string());
     let script = lines.join("\n");
     let mut context = Context::new();
     duckscriptsdk::load(&mut context.commands).ok()?;
@@ -103,9 +106,15 @@ fn run_fn_cond(f: &Value) -> Option<Value> {
             let got_elseif = ctx.variables.get("via_elseif").cloned();
             let got_while = ctx.variables.get("via_while").cloned();
             let seen = ctx.variables.get("seen").cloned();
+            let ny = Some(if want { "no" } else { "yes" });
+            let got_if_not = ctx.variables.get("via_if_not").cloned();
+            let got_while_not = ctx.variables.get("via_while_not").cloned();
+            if got_if_not.as_deref() != ny || got_while_not.as_deref() != ny {
+                return Some(json!({"script": script, "what": "`not <function>` used as the condition of if / while decides differently from the direct call", "direct_output": direct, "via_if_not": got_if_not, "via_while_not": got_while_not}));
+            }
             if got_if.as_deref() != yn || got_not != Some((!want).to_string()) || got_elseif.as_deref() != yn || got_while.as_deref() != yn {
                 Some(json!({"script": script, "what": "the branch taken differs from the one determined by the direct call's output", "direct_output": direct, "via_if": got_if, "via_not": got_not, "via_elseif": got_elseif, "via_while": got_while}))
-            } else if seen.as_deref() != Some("|a1|a2|a3|a4|a5") {
+            } else if seen.as_deref() != Some("|a1|a2|a3|a4|a5|a6|a7") {
                 Some(json!({"script": script, "what": "a function used as a condition was not called once per consumer with the argument written", "seen": seen}))
             } else {
                 None
